@@ -2,14 +2,15 @@
 From Coq Require Import Reals ZArith List Bool Lra Lia String.
 From PyLib Require Import PyVal PyBuiltins Ideal Whnf PyEval.
 From Gen Require Import M_base M_Angle M_Epoch M_Interpolation M_Coordinates M_Earth M_Sun.
-From Proofs.C14 Require Import C14_tac C14_angle C14_season C14_seasonB.
+From Proofs.C14 Require Import C14_tac C14_angle C14_angle2 C14_season.
+From Proofs.C14 Require Import C14_sA0 C14_sA1 C14_sA2 C14_sA3 C14_sB0 C14_sB1 C14_sB2 C14_sB3.
 Import ListNotations.
 Open Scope R_scope.
 
 Ltac2 Set Whnf.is_blocked as old := fun c =>
   Ltac2.Bool.or (old c)
    (Ltac2.List.exist (Ltac2.Constr.equal c)
-     ['@Sun_apparent_geocentric_position; '@Epoch___init__; '@Angle_reduce_deg;
+     ['@Sun_apparent_geocentric_position; '@Epoch___init__; '@Angle___init__; '@Angle___rsub__;
       '@Angle_to_positive; 'loop_fuel; 'Z.geb; 'Z.ltb; 'Z.leb; 'Z.gtb]).
 
 
@@ -37,7 +38,7 @@ Theorem season_first_query (D : R -> Prop) k y x :
   Sun_get_equinox_solstice Rops (VInt y) (VStr (season_name k)) = VErr x.
 Proof.
   intros Hk Hy Hc HD Hs.
-  destruct (season_structure_all D k y Hk Hy Hc HD) as (F & Hcall & _ & _ & Hfail).
+  destruct (season_structure_all D k y Hk Hy Hc HD) as (F & Hcall & _ & _ & Hfail & _).
   rewrite Hcall. change loop_fuel with (S (pred loop_fuel)).
   apply Hfail; [ | exact Hs ].
   rewrite Rabs_right; lra.
@@ -54,10 +55,38 @@ Theorem season_exit_step (D : R -> Prop) k y :
        F (S n) a (VFloat c) (epo e) la lo r = epo (e - c).
 Proof.
   intros Hk Hy Hc HD.
-  destruct (season_structure_all D k y Hk Hy Hc HD) as (F & Hcall & H0 & Hexit & _).
+  destruct (season_structure_all D k y Hk Hy Hc HD) as (F & Hcall & H0 & Hexit & _ & _).
   exists F. repeat split; assumption.
 Qed.
 
+
+(* ---- the loop invariant, by induction on the fuel of the generated loop ---- *)
+Theorem season_loop_invariant (D : R -> Prop) k y lam bet rad :
+  (0 <= k <= 3)%Z -> (-1000 <= y <= 3000)%Z -> SunModel D lam bet rad -> StepClosed D k lam ->
+  D (jde0 k y) ->
+  SeasonGood D k lam (Sun_get_equinox_solstice Rops (VInt y) (VStr (season_name k))).
+Proof.
+  intros Hk Hy (Hctor & Hsun & Hlam) Hclosed HD0.
+  destruct (season_structure_all D k y Hk Hy Hctor HD0) as (F & Hcall & H0 & Hexit & _ & Hstep).
+  rewrite Hcall. clear Hcall.
+  assert (Hloop : forall n a c e la lo r, LoopInv D k lam c e ->
+             SeasonGood D k lam (F n a (VFloat c) (epo e) la lo r)).
+  { induction n as [|n IH]; intros a c e la lo r (HDe & Hinv).
+    - left. apply H0.
+    - destruct (Rlt_dec (25 / 10000000) (Rabs c)) as [Hbig|Hsmall].
+      + pose proof (Hclosed e HDe) as HDn. unfold season_corr, season_arg in HDn.
+        destruct (Hstep n a c e la lo r (lam e) (bet e) (rad e) Hbig (Hlam e) (Hsun e HDe) HDn)
+          as (a' & la' & lo' & r' & Heq).
+        rewrite Heq. apply IH. split; [exact HDn|].
+        set (c' := 58 * sin ((IZR k * 90 - pos360 (lam e)) * (PI / 180))) in *.
+        destruct (Rlt_dec (25 / 10000000) (Rabs c')) as [Hb'|Hs']; [left; exact Hb'|right].
+        replace (e + c' - c') with e by ring. split; [exact HDe|].
+        unfold season_corr, season_arg. fold c'. lra.
+      + destruct Hinv as [Hc|(HDec & HQ)]; [lra|].
+        rewrite (Hexit n a c e la lo r ltac:(lra) HDec).
+        right. exists (e - c). repeat split; assumption. }
+  apply Hloop. split; [exact HD0|]. left. rewrite Rabs_right; lra.
+Qed.
 
 Lemma season_type_float y s : Sun_get_equinox_solstice Rops (VFloat y) (VStr s) = VErr TypeError.
 Proof. pyrun2. reflexivity. Qed.
